@@ -250,6 +250,42 @@ class Interp:
                           "cst-category": cst.category_shuffle, "cst-splits": cst.splits_shuffle}[e]
                     lib_call(e, fn, corpus)
                     out.append(corpus)
+            elif e == "unlabelled-statistical-sampler":
+                # a fully unlabelled twin of the input (tracked as a derived object): the statistical sampler is not defined
+                # on it - an exception is fine, a modified continuum is not
+                twin = pa.Continuum()
+                for a, u in c:
+                    twin.add(a, u.segment, None)
+                out.append(twin)
+                self._twin_before = snap_continuum(twin)
+                try:
+                    smp = pa.StatisticalContinuumSampler()
+                    smp.init_sampling(twin)
+                    _ = smp.sample_from_continuum
+                except Exception:
+                    pass
+                if snap_continuum(twin) != self._twin_before:
+                    raise Violation("unlabelled-statistical-sampler:modifies:input", f"before {self._twin_before} after {snap_continuum(twin)}")
+            elif e == "fast-failing-midway":
+                # a dissimilarity whose category table lacks a label that only appears late: the computation fails after
+                # several windows - the exception is expected, a damaged input is not
+                narrow = oracle.build_dissim({"kind": "combined", "alpha": 1.0, "beta": 1.0, "delta": 1.0, "pos": None,
+                                              "cat": {"kind": "precomputed", "cats": ["A", "B", "C", "D"], "matrix": [[0, 1, 1, 1], [1, 0, 1, 1], [1, 1, 0, 1], [1, 1, 1, 0]], "delta": 1.0}})
+                late = c.copy()
+                names = list(late.annotators)
+                t0 = max(u.segment.end for _, u in late) + 50.0
+                for j, a in enumerate(names):
+                    late.add(a, pa.continuum.Segment(t0 + j, t0 + j + 2.0), "LATE")
+                out.append(late)
+                before_late = snap_continuum(late)
+                for fn in (lambda: late.get_fast_alignment(narrow, 1), lambda: late.compute_gamma(narrow, n_samples=1, fast=True)):
+                    try:
+                        fn()
+                    except Exception:
+                        pass
+                after_late = snap_continuum(late)
+                if after_late[:4] != before_late[:4]:
+                    raise Violation("fast-failing-midway:modifies:input", f"units before {len(before_late[1])} after {len(after_late[1])}")
             elif e == "copy":
                 out.append(c.copy())
             elif e == "copy_flush":
@@ -275,7 +311,7 @@ class Interp:
         return out
 
 
-ENTRIES = ["best", "soft", "fast", "first_window", "measure_window", "gamma-exact", "gamma-fast", "gamma-soft",
+ENTRIES = ["unlabelled-statistical-sampler", "fast-failing-midway", "best", "soft", "fast", "first_window", "measure_window", "gamma-exact", "gamma-fast", "gamma-soft",
            "sampler-statistical", "sampler-shuffle", "cst-from-reference", "cst-shuffle", "cst-shift", "cst-false-neg",
            "cst-false-pos", "cst-category", "cst-splits", "copy", "copy_flush", "merge", "getitem"]
 
